@@ -30,8 +30,9 @@ def main():
     ap.add_argument("--only", nargs="*")
     ap.add_argument("--validate", action="store_true")
     ap.add_argument("--in-repo", action="store_true")
+    ap.add_argument("--results", help="write results to this file instead of seeded/RESULTS.json")
     args = ap.parse_args()
-    results_path = os.path.join(SEEDED, "RESULTS.json")
+    results_path = args.results or os.path.join(SEEDED, "RESULTS.json")
     results = json.load(open(results_path)) if os.path.exists(results_path) else {}
     ids = sorted(d for d in os.listdir(SEEDED) if os.path.isfile(os.path.join(SEEDED, d, "patch.diff")))
     if args.only:
@@ -86,7 +87,7 @@ def main():
         with open(results_path, "w") as f:
             json.dump(results, f, indent=1, sort_keys=True)
     # regenerate tables from the real tree again
-    sh(f"{PY} {ROOT}/harness/gen_tables.py")
+    sh(f"{PY} {ROOT}/harness/gen_tables.py", env={k: v for k, v in os.environ.items() if k != "VERIF_REPO"})
 
 
 if __name__ == "__main__":
